@@ -450,6 +450,15 @@ def wdeg(prog: Program, res: Result) -> None:
         for n in names:
             fi = prog.func(f"{cls}.{cls}.{n}")
             d = dg.method_degree(n)
+            if field == "factor_matrices":
+                # the list as a whole has a degree PER MODE only while it is used as a whole; a loop that applies one factor per iteration makes
+                # the engine see a growing (MIXED) degree although the code is right: only definite per-site degrees are judged
+                sites = dg.return_degrees(n)
+                if not sites or any(x is None or x == D.MIXED or x == "BOT" for x in sites):
+                    d = None
+                else:
+                    wrong = [x for x in sites if x != D.POLY and x != Fraction(1)]
+                    d = wrong[0] if wrong else Fraction(1)
             desc = f"the result is homogeneous of degree 1 in self.{field}" + (" (per mode)" if field == "factor_matrices" else "")
             if d == Fraction(1) or d == D.POLY:
                 res.ok("WDEG", fi.short, desc, prog.loc(fi))
